@@ -81,12 +81,16 @@ Definition subpipeline (p : pipeline) (I : list str) (S : option (list str)) : r
       then Ok p'
       else Err ValueError.                             (* "it would require {new_root_args}" *)
 
-(* _validate_complete_inputs *)
-Definition validate_complete_inputs (p : pipeline) (inputs : alist) : result unit :=
+(* _validate_complete_inputs(pipeline, inputs, provided_outputs=selected).  Repaired code: when the pipeline was
+   selected from the inputs (output_names / auto_subpipeline), the outputs of its multi-output functions are not
+   counted as extra inputs (one output of a kept tuple function may be provided; _func_kwargs prefers the input) *)
+Definition overridable (p : pipeline) : list str := flat_map (fun f => if multi f then outs f else []) p.
+Definition validate_complete_inputs (p : pipeline) (inputs : alist) (selected : bool) : result unit :=
   let roots := root_arg_names p in
   let given := akeys inputs ++ akeys (pdefaults p) in
   if negb (subset_str roots given) then Err ValueError           (* Missing inputs *)
-  else if negb (subset_str given roots) then Err ValueError      (* Got extra inputs *)
+  else if negb (subset_str (if selected then diff_str given (overridable p) else given) roots)
+  then Err ValueError                                             (* Got extra inputs *)
   else Ok tt.
 
 Section Map.
@@ -133,9 +137,9 @@ Section Map.
      all results of the (sub)pipeline and the calls made *)
   Definition map_run (p : pipeline) (inputs : alist) (S : option (list str)) (auto : bool)
     : result (alist * list call) :=
-    do p' <- (if auto || match S with Some _ => true | None => false end
-              then subpipeline p (akeys inputs) S else Ok p);
-    do _ <- validate_complete_inputs p' inputs;
+    let selected := auto || match S with Some _ => true | None => false end in
+    do p' <- (if selected then subpipeline p (akeys inputs) S else Ok p);
+    do _ <- validate_complete_inputs p' inputs selected;
     run_generations p' inputs.
 End Map.
 
@@ -177,9 +181,9 @@ Section Map2.
     end.
 
   Definition prepare (p : pipeline) (inputs : alist) (S : option (list str)) (auto : bool) : result pipeline :=
-    do p' <- (if auto || match S with Some _ => true | None => false end
-              then subpipeline p (akeys inputs) S else Ok p);
-    do _ <- validate_complete_inputs p' inputs;
+    let selected := auto || match S with Some _ => true | None => false end in
+    do p' <- (if selected then subpipeline p (akeys inputs) S else Ok p);
+    do _ <- validate_complete_inputs p' inputs selected;
     Ok p'.
 
   (* map(inputs1, F, output_names=S1, auto_subpipeline=a1) ; map(inputs2, F, ..., cleanup=False).
